@@ -16,6 +16,8 @@ import RvModel.Hand.Mixture
     mix.cat.{pmf,ln_pmf,supports,ln_f,f,cdf} - <W> L<k> (L<n> ln_w…)* <x:nat>   (ln_f/f/cdf panic in Rust when some
                                         component has x ≥ n: only ask them for x below every n)
     mix.gauss.entropy                 - <W> <G>              ↦ f64 | PANIC      (model of the quadrature entropy)
+    mix.pois.entropy / mix.bern.entropy / mix.cat.entropy - <W> <P|B|cats>   ↦ f64 | PANIC   (entropy() as coded: count_entropy_range
+                                        sweep / Σ f ln f (sign as coded) / Σ over the categories of the FIRST component)
     mix.gauss.quad_bounds             - <W> <G>              ↦ lower upper | PANIC
     mix.gauss.entropy_b               - <W> <G> <lower> <upper> ↦ f64 | PANIC   (model only: the entropy with the given
                                         integration bounds — feed the implementation's quad_bounds)
@@ -98,6 +100,20 @@ def tableC11 : List (String × Rd String) :=
   ("mix.gauss.entropy", do
     let _ ← Wire.next; let w ← rdL rdF; let g ← rdGauss
     pure (match entropyQuad w (g.map gaussQComp) with
+      | none => "PANIC"
+      | some h => wrF h)),
+  ("mix.pois.entropy", do
+    let _ ← Wire.next; let m ← rdPMix
+    pure (match countMixEntropy m with
+      | none => "PANIC"
+      | some h => wrF h)),
+  ("mix.bern.entropy", do
+    let _ ← Wire.next; let m ← rdBMix
+    pure (wrF (bernMixEntropy m))),
+  ("mix.cat.entropy", do
+    let _ ← Wire.next; let w ← rdL rdF; let g ← rdL GenDispatch.rd_Categorical
+    let m : Mix Float Nat := ⟨w, g.map catComp⟩
+    pure (match catMixEntropy m (g.head?.map (fun c => c.ln_weights.length)) with
       | none => "PANIC"
       | some h => wrF h)),
   ("mix.gauss.quad_bounds", do
